@@ -245,15 +245,30 @@ TSmooth(e) ==
              ELSE
                LET Xa == GMat(s.g, V(e.val))  Xb == GMat(s.g, V(e.valb))
                    va == V(e.vel)  vb == V(e.velb)  aa == V(e.acc)  ab == V(e.accb)
-                   \* the curve itself moves between ta and tb: |dX| <= |X| |hat(vel)| (tb - ta)
-                   drift == RMul(RMul(RI(4 * Dim(s.g)), RSub(tb, ta)),
-                                 RMul(RMax(R1, MaxAbs(Xa)), RAdd(VMaxAbs(va), VMaxAbs(vb))))
+                   \* The curve itself moves between ta and tb.  When the two times are closer than 2^-36 dt
+                   \* the motion is negligible for the derivative outputs and bounded for the value by
+                   \* |dX| <= |X| |hat(vel)| (tb - ta).  Otherwise (large |t0|: neighbouring doubles are a
+                   \* sizeable fraction of a knot interval apart) the motion of the exact curve between the two
+                   \* times is computed from the oracle and allowed for, order by order (orders <= K-1 of the
+                   \* exact curve are continuous, so the choice of window at the knot does not matter).
+                   coarse == RLt(RMul(RPow2(-36), s.dt), RSub(tb, ta))
+                   wa == CodeWindow(s.K, s.N, s.t0, s.dt, ta)
+                   wb == CodeWindow(s.K, s.N, s.t0, s.dt, tb)
+                   oa == EvalWin(s, wa[1], wa[2])
+                   ob == EvalWin(s, wb[1], wb[2])
+                   drift == IF coarse THEN MaxAbsDiff(oa.val, ob.val)
+                            ELSE RMul(RMul(RI(4 * Dim(s.g)), RSub(tb, ta)),
+                                      RMul(RMax(R1, MaxAbs(Xa)), RAdd(VMaxAbs(va), VMaxAbs(vb))))
+                   dvel == IF coarse THEN VMaxAbsDiff(oa.vel, ob.vel) ELSE R0
+                   dacc == IF coarse THEN VMaxAbsDiff(oa.acc, ob.acc) ELSE R0
                    tolv == RAdd(RMul(TolVal, RMax(R1, MaxAbs(Xa))), drift)
+                   Agree(x, y, p, d) == RLeq(VMaxAbsDiff(x, y), RAdd(RAdd(RMul(TolDer, RMax(VMaxAbs(x), VMaxAbs(y))), DerFloor(s.dt, p)), d))
                IN [bad |-> Chk("C13.smooth.value", RLeq(MaxAbsDiff(Xa, Xb), tolv), MaxAbsDiff(Xa, Xb), tolv)
-                           \o (IF s.K >= 2 THEN Chk("C13.smooth.vel", DerAgree(va, vb, s.dt, 1), DerErr(va, vb), TolDer) ELSE <<>>)
-                           \o (IF s.K >= 3 THEN Chk("C13.smooth.acc", DerAgree(aa, ab, s.dt, 2), DerErr(aa, ab), TolDer) ELSE <<>>),
+                           \o (IF s.K >= 2 THEN Chk("C13.smooth.vel", Agree(va, vb, 1, dvel), DerErr(va, vb), TolDer) ELSE <<>>)
+                           \o (IF s.K >= 3 THEN Chk("C13.smooth.acc", Agree(aa, ab, 2, dacc), DerErr(aa, ab), TolDer) ELSE <<>>),
                    key |-> "smooth|K" \o KStr(s) \o "|" \o (IF k = 0 \/ k = s.N - s.K THEN "endknot" ELSE "knot")
-                           \o (IF ~across THEN ".sameside" ELSE IF REq(ta, tk) \/ REq(tb, tk) THEN ".at" ELSE "")]
+                           \o (IF ~across THEN ".sameside" ELSE IF REq(ta, tk) \/ REq(tb, tk) THEN ".at" ELSE "")
+                           \o (IF coarse THEN ".coarse" ELSE "")]
 
 \* B = A with control point idx moved: same curve outside knot intervals idx-K .. idx
 SameExceptOne(a, b) ==
@@ -275,7 +290,9 @@ TLocal(e, a, b) ==
       \* orders that must agree: all away from the support; 0..K-1 at its two boundary knots
       maxord == IF edge THEN k - 1 ELSE 2
       tolv == RMul(TolVal, RMax(R1, MaxAbs(Xa)))
-  IN IF inside /\ ~edge THEN [bad |-> <<>>, key |-> "local|K" \o ToString(k) \o "|in"]
+  \* strictly inside the support nothing is required - also next to its boundary knots, where the weight of
+  \* the moved point is small but not zero (for large |t0| one ulp of t is a sizeable fraction of dt)
+  IN IF inside THEN [bad |-> <<>>, key |-> "local|K" \o ToString(k) \o "|in"]
      ELSE [bad |-> Chk("C13.local.value", RLeq(MaxAbsDiff(Xa, Xb), tolv), MaxAbsDiff(Xa, Xb), tolv)
                    \o (IF inD /\ maxord >= 1 THEN Chk("C13.local.vel", DerAgree(va, vb, a.dt, 1), DerErr(va, vb), TolDer) ELSE <<>>)
                    \o (IF inD /\ maxord >= 2 THEN Chk("C13.local.acc", DerAgree(aa, ab, a.dt, 2), DerErr(aa, ab), TolDer) ELSE <<>>),
@@ -336,8 +353,9 @@ TConst(e) ==
 ---------------------------------------------------------------------------
 NoSpline == [ok |-> FALSE]
 \* which of the property's (t0, dt) classes a spline belongs to (coverage only)
-T0Class(t0) == IF RSign(t0) = 0 THEN "t0=0" ELSE IF RSign(t0) < 0 THEN "t0<0" ELSE IF RLeq(RI(100), t0) THEN "t0>=100" ELSE "t0>0"
-DtClass(dt) == IF RLt(dt, RFrac(1, 5)) THEN "dt<.2" ELSE IF RLt(dt, RFrac(1, 2)) THEN "dt<.5" ELSE IF RLt(dt, R2) THEN "dt<2" ELSE "dt>=2"
+Big(s) == RLeq(RI(1000000000), RAbs(s.t0)) /\ RLeq(s.dt, RFrac(11, 1000))     \* |t0| >= 1e9 with dt <= 0.01
+T0Class(t0) == IF RLeq(RI(1000000000), RAbs(t0)) THEN "|t0|>=1e9" ELSE IF RSign(t0) = 0 THEN "t0=0" ELSE IF RSign(t0) < 0 THEN "t0<0" ELSE IF RLeq(RI(100), t0) THEN "t0>=100" ELSE "t0>0"
+DtClass(dt) == IF RLeq(dt, RFrac(11, 1000)) THEN "dt<=.01" ELSE IF RLt(dt, RFrac(1, 5)) THEN "dt<.2" ELSE IF RLt(dt, RFrac(1, 2)) THEN "dt<.5" ELSE IF RLt(dt, R2) THEN "dt<2" ELSE "dt>=2"
 NClass(k, n) == IF n = k + 1 THEN "N=K+1" ELSE IF n = 30 THEN "N=30" ELSE "N.."
 Init == l = 1 /\ bad = <<>> /\ cov = <<>> /\ sp = [A |-> NoSpline, B |-> NoSpline]
 
@@ -369,7 +387,8 @@ Next ==
   /\ LET e == Tr[l]
          r == Step(e)
          res == r.bad
-         key == r.key
+         \* events of splines with |t0| >= 1e9 and dt <= 0.01 are counted in cells of their own
+         key == r.key \o (IF r.sp["A"].ok /\ Big(r.sp["A"]) THEN "@big" ELSE "")
      IN /\ bad' = bad \o [i \in 1..Len(res) |-> [line |-> l, op |-> e.op, stratum |-> key] @@ res[i]]
         /\ cov' = IF key \in DOMAIN cov THEN [cov EXCEPT ![key] = @ + 1] ELSE cov @@ (key :> 1)
         /\ sp' = r.sp
